@@ -17,6 +17,7 @@ mod o_reader;
 mod o_parsers;
 mod o_arith;
 mod o_mgu;
+mod o_contexts;
 
 use std::panic;
 
@@ -68,6 +69,12 @@ fn oracles() -> Vec<(&'static str, Enumerate, Check)> {
         ("c01_solve_all", o_solver::enum_prog_solve_all, o_solver::check_program),
         ("c02_prog", o_solver::enum_prog_cut, o_solver::check_program),
         ("c03_prog", o_solver::enum_prog_not, o_solver::check_program),
+        ("c20_contexts", o_contexts::enum_contexts, o_contexts::check_contexts),
+        ("c20_strict", o_contexts::enum_contexts, o_contexts::check_strict),
+        ("c20_known_flags", o_contexts::enum_known_flags, o_contexts::check_strict),
+        ("c20_known_paren", o_contexts::enum_known_paren, o_contexts::check_strict),
+        ("c20_known_infix", o_contexts::enum_known_infix, o_contexts::check_strict),
+        ("c20_known_escape", o_contexts::enum_known_escape, o_contexts::check_strict),
     ]
 }
 
@@ -120,8 +127,8 @@ fn main() {
     let mut cases = en(seed);
     if let Some(f) = &filter { cases.retain(|c| c.starts_with(f.as_str())); }
     let generated = cases.len();
-    cases.sort();
-    cases.dedup();
+    // (the known-finding enumerations keep their order: the first case is the one known_findings.txt names)
+    if !name.starts_with("c20_known") { cases.sort(); cases.dedup(); }
     if args.iter().any(|a| a == "--list") {
         // one case per line (JSON string): used to find the case on which the process itself died (stack overflow, abort)
         for c in &cases { println!("{}", jstr(c)); }
